@@ -821,6 +821,52 @@ pub fn execute_user(scn: &UserShapeScn, ctx: &mut Ctx) {
             }
             ctx.stats.reach("shp-beyond-2GiB-written");
         }
+        "big-no-retry" => {
+            // C12 beyond 2 GiB: a finalize that fails once at operation `fail_op` is NOT retried; the
+            // caller goes on writing and lets the drop finalize. Once the destination works again the
+            // files are completed as an undisturbed run would complete them.
+            let run = |fin_after: u32, fail_op: u64| -> Result<Result<(SparseSink, bool), String>, PanicInfo> {
+                guarded(move || {
+                    let sink = std::rc::Rc::new(std::cell::RefCell::new(SparseSink::default()));
+                    let mut failed = false;
+                    {
+                        let mut w = shapefile::ShapeWriter::new(SinkH(sink.clone()));
+                        for i in 0..34u32 {
+                            w.write_shape(&BigLine).map_err(|e| format!("write {}: {:?}", i, classify(&e)))?;
+                            if fin_after == i + 1 {
+                                {
+                                    let mut sk = sink.borrow_mut();
+                                    sk.ops = 0;
+                                    sk.fail_op = fail_op;
+                                }
+                                failed = w.finalize().is_err();
+                                sink.borrow_mut().fail_op = 0;
+                            }
+                        }
+                    }
+                    let mut out = sink.borrow().clone();
+                    out.ops = 0;
+                    out.fail_op = 0;
+                    out.pos = 0;
+                    Ok((out, failed))
+                })
+            };
+            let a = run(scn.fin_after, scn.fail_op);
+            let b = run(0, 0);
+            match (a, b) {
+                (Err(p), _) | (_, Err(p)) => ctx.fail("C12", "panic", format!("panic:big-file:{}", p.loc.rsplit('/').next().unwrap_or("").split(':').next().unwrap_or("")), format!("34 shapes of 64 MiB, finalize after {} failing at its operation {}, not retried: {}", scn.fin_after, scn.fail_op, p.text())),
+                (Ok(Err(e)), _) | (_, Ok(Err(e))) => ctx.fail("C12", "write-after-failed-finalize", "big-file", format!("34 shapes of 64 MiB, finalize after {} failing at its operation {}: {}", scn.fin_after, scn.fail_op, e)),
+                (Ok(Ok((a, failed))), Ok(Ok((b, _)))) => {
+                    if failed {
+                        ctx.stats.reach("big-file-finalize-failed-not-retried");
+                    }
+                    if a != b {
+                        ctx.fail("C12", "golden-after-failed-finalize", "big-file", format!("34 shapes of 64 MiB with a finalize after {} that {} at its operation {} and was not retried: the file left by the drop differs from the undisturbed run ({} vs {} bytes, {} vs {} small writes)", scn.fin_after, if failed { "failed" } else { "did not fail" }, scn.fail_op, a.len, b.len, a.small.len(), b.small.len()));
+                    }
+                }
+            }
+            ctx.stats.reach("shp-beyond-2GiB-written");
+        }
         _ => ctx.fail("HARNESS", "invalid-scenario", "user-shape", "unknown kind".to_string()),
     }
     ctx.stats.distinct.insert(crate::prng::fnv_str(&format!("user|{}|{}|{}", scn.kind, scn.fin_after, scn.fail_op)));
@@ -830,6 +876,7 @@ pub fn user_unit(unit: u64, ctx: &mut Ctx, ctl: &mut UnitCtl) {
     let scns: Vec<UserShapeScn> = match unit {
         0 => vec![UserShapeScn { kind: "late".into(), fin_after: 0, fail_op: 0 }],
         1 => vec![UserShapeScn { kind: "big".into(), fin_after: 32, fail_op: 0 }, UserShapeScn { kind: "big".into(), fin_after: 17, fail_op: 0 }],
+        3 => (1..=6).map(|k| UserShapeScn { kind: "big-no-retry".into(), fin_after: [32, 33][(k % 2) as usize], fail_op: k }).collect(),
         _ => {
             // a finalize beyond 2 GiB that fails once at each of its first operations
             (1..=17).map(|k| UserShapeScn { kind: "big".into(), fin_after: 32, fail_op: k }).collect()
